@@ -12,15 +12,15 @@ Variable md5 : N -> N.
 
 (* the loop over file_dep without log: it ends normally only if every file exists and no entry has
    the wrong type, and then returns, after the given accumulator, exactly the files whose verdict
-   is "no saved state / modified" *)
-Lemma check_files_done c fs r deps : forall ch ms ch' ms',
-  check_files md5 c fs r false deps ch ms = FLDone ch' ms' ->
-  (forall f, In f deps -> file_verdict md5 c fs r f = FChanged \/ file_verdict md5 c fs r f = FSame) /\
-  (forall f, In f ch' <-> In f ch \/ (In f deps /\ file_verdict md5 c fs r f = FChanged)).
+   is "no saved state / outside the saved 'deps:' list (fixC) / modified" *)
+Lemma check_files_done v c fs r deps : forall ch ms ch' ms',
+  check_files md5 v c fs r false deps ch ms = FLDone ch' ms' ->
+  (forall f, In f deps -> dep_verdict md5 v c fs r f = FChanged \/ dep_verdict md5 v c fs r f = FSame) /\
+  (forall f, In f ch' <-> In f ch \/ (In f deps /\ dep_verdict md5 v c fs r f = FChanged)).
 Proof.
   induction deps as [|x deps IH]; intros ch ms ch' ms' H; simpl in H.
   - inversion H; subst. split; [intros f []|]. intros f. rewrite <- in_rev. simpl. tauto.
-  - destruct (file_verdict md5 c fs r x) eqn:E; try discriminate.
+  - destruct (dep_verdict md5 v c fs r x) eqn:E; try discriminate.
     + apply IH in H. destruct H as [H1 H2]. split.
       * intros f [<-|Hf]; auto.
       * intros f. rewrite H2. simpl. split.
@@ -38,7 +38,7 @@ Qed.
 Lemma get_status_changed v c fs d t df :
   g_status (get_status md5 v c fs d t df false) = Run ->
   items_ok d t df ->
-  forall f, In f (file_dep df) -> file_verdict md5 c fs (getrec d t) f <> FSame ->
+  forall f, In f (file_dep df) -> dep_verdict md5 v c fs (getrec d t) f <> FSame ->
             In f (g_changed (get_status md5 v c fs d t df false)).
 Proof.
   intros Hrun Hitems f Hf Hv. apply items_ok_b in Hitems.
@@ -48,11 +48,37 @@ Proof.
   destruct (negb (is_nil (filter (fun x => negb (exists_ fs x)) (targets df)))) eqn:E3; simpl; auto.
   fold (ck_changed c (getrec d t)).
   destruct (ck_changed c (getrec d t)) eqn:E4; simpl; auto.
-  destruct (check_files md5 c fs (getrec d t) false (file_dep df) [] []) as [ch ms| |] eqn:E5; simpl.
+  destruct (check_files md5 v c fs (getrec d t) false (file_dep df) [] []) as [ch ms| |] eqn:E5; simpl.
   - intros _. apply check_files_done in E5. destruct E5 as [H1 H2]. apply H2. right. split; auto.
     destruct (H1 f Hf) as [H|H]; auto. contradiction.
   - discriminate.
   - discriminate.
+Qed.
+
+(* the two ways the loop does not find a dependency unmodified, spelled out: its saved state (none, or
+   another version of the file), and -- since fixC -- its absence from the saved 'deps:' list: a
+   dependency that left file_dep and came back is listed although an older execution's state of it
+   is still in the record and still matches the file *)
+Lemma get_status_changed_state v c fs d t df :
+  g_status (get_status md5 v c fs d t df false) = Run ->
+  items_ok d t df ->
+  forall f, In f (file_dep df) -> file_verdict md5 c fs (getrec d t) f <> FSame ->
+            In f (g_changed (get_status md5 v c fs d t df false)).
+Proof.
+  intros Hrun Hitems f Hf Hv. apply get_status_changed; auto.
+  intros E. apply dep_verdict_same in E. destruct E as [E _]. contradiction.
+Qed.
+Lemma get_status_changed_outside v c fs d t df :
+  fixC v = true ->
+  g_status (get_status md5 v c fs d t df false) = Run ->
+  items_ok d t df ->
+  forall f p, In f (file_dep df) -> r_deps (getrec d t) = Some p -> ~ In f p ->
+              In f (g_changed (get_status md5 v c fs d t df false)).
+Proof.
+  intros HC Hrun Hitems f p Hf Ep Hn. apply get_status_changed; auto.
+  intros E. apply dep_verdict_same in E. destruct E as [_ E]. rewrite HC in E. simpl in E.
+  assert (Ho : outside_saved_deps (getrec d t) f = true) by (apply outside_saved_deps_iff; exists p; auto).
+  congruence.
 Qed.
 
 (* the uptodate-false exit: dep_changed stays [] (and the verdict is `run`) whatever the files are *)
@@ -87,14 +113,17 @@ Lemma changed_superset_at s t :
     (s_last_ok s t = None -> In f (g_changed (check s t))) /\
     (forall g then_ now, s_last_ok s t = Some g -> In f (file_dep (g_def g)) ->
        g_fs g f = Some then_ -> s_fs s f = Some now -> ~ unmodified md5 (s_ck s) then_ now ->
+       In f (g_changed (check s t))) /\
+    (fixC v = true -> forall g, s_last_ok s t = Some g -> ~ In f (file_dep (g_def g)) ->
        In f (g_changed (check s t))).
 Proof.
   intros (Hb & Ht & Hcr) Hrun Hitems f Hf. unfold History.check in *.
-  pose proof (get_status_changed md5 v (s_ck s) (s_fs s) (s_db s) t (s_defs s t) Hrun Hitems f Hf) as Hc.
+  pose proof (get_status_changed_state md5 v (s_ck s) (s_fs s) (s_db s) t (s_defs s t) Hrun Hitems f Hf) as Hc.
+  pose proof (fun HC => get_status_changed_outside md5 v (s_ck s) (s_fs s) (s_db s) t (s_defs s t) HC Hrun Hitems f) as Ho.
   assert (Hnone : r_saved (getrec (s_db s) t) f = None ->
                   In f (g_changed (get_status md5 v (s_ck s) (s_fs s) (s_db s) t (s_defs s t) false))).
   { intros E. apply Hc. unfold file_verdict. rewrite E. destruct (s_fs s f); discriminate. }
-  split; [exact Hnone|]. specialize (Ht t). unfold task_inv in Ht. split.
+  split; [exact Hnone|]. specialize (Ht t). unfold task_inv in Ht. split; [|split].
   - intros E. apply Hnone. rewrite E in Ht. unfold getrec. destruct (s_db s t) as [r|]; auto.
     destruct Ht as (_ & _ & Hn). apply Hn.
   - intros g then_ now Eg Hin Ethen Enow Hmod. rewrite Eg in Ht.
@@ -113,6 +142,10 @@ Proof.
       { apply andb_true_iff in E2. destruct E2 as [E2 _]. apply is_nil_true in E2. rewrite E2 in Hf. destruct Hf. }
       destruct (negb (is_nil (filter (fun x => negb (exists_ (s_fs s) x)) (targets (s_defs s t))))) eqn:E3; simpl; auto.
       rewrite (getrec_some _ _ _ Er), T4, Eck. simpl. auto.
+  - (* not a dependency of the last successful execution: outside the saved 'deps:' list *)
+    intros HC g Eg Hout. rewrite Eg in Ht. destruct (s_db s t) as [r|] eqn:Er; [|destruct Ht].
+    destruct Ht as (T1 & T2 & T3 & _). apply (Ho HC (file_dep (g_def g))); auto.
+    rewrite (getrec_some _ _ _ Er). exact T3.
 Qed.
 
 Lemma changed_superset ops t :
@@ -125,6 +158,8 @@ Lemma changed_superset ops t :
     (s_last_ok s t = None -> In f (g_changed (check s t))) /\
     (forall g then_ now, s_last_ok s t = Some g -> In f (file_dep (g_def g)) ->
        g_fs g f = Some then_ -> s_fs s f = Some now -> ~ unmodified md5 (s_ck s) then_ now ->
+       In f (g_changed (check s t))) /\
+    (fixC v = true -> forall g, s_last_ok s t = Some g -> ~ In f (file_dep (g_def g)) ->
        In f (g_changed (check s t))).
 Proof.
   intros Hf s. apply changed_superset_at. apply run_inv; assumption.
